@@ -19,7 +19,7 @@ PENDING_TEXT = {
             "ShapeVerif.accepted_is_json", "ShapeVerif.sources_accepted_are_json", "ShapeVerif.checked_ok_is_json",
             "ShapeVerif.accept_sound", "ShapeVerif.tokenize_sound", "ShapeVerif.rules_sound",
             "ShapeVerif.accept_no_diagnostics", "ShapeVerif.unchecked_false", "ShapeVerif.checked_iff",
-            "ShapeVerif.sources_accept"],
+            "ShapeVerif.sources_accept", "ShapeVerif.parse_sound"],
     "C05": ["ShapeVerif.fromStr_total", "ShapeVerif.span_faithful", "ShapeVerif.entry_points_total",
             "ShapeVerif.sources_span_faithful", "ShapeVerif.tokenize_ok", "ShapeVerif.parse_leaves",
             "ShapeVerif.classifyArray_never_fails", "ShapeVerif.classifyArrayV_total",
